@@ -47,6 +47,7 @@ fn main() {
         Some("replay") if a.len() >= 3 => driver::replay(&a[2]),
         Some("selftest") => driver::selftest(),
         Some("conformance") => conformance::run(),
+        Some("conformance-child") => conformance::child_zombie_leader(),
         Some("determinism") => {
             let n: u64 = a.get(2).and_then(|s| s.parse().ok()).unwrap_or(2000);
             let props: Vec<String> = if a.len() > 3 { a[3..].to_vec() } else { driver::CLAIMED.iter().map(|s| s.to_string()).collect() };
